@@ -170,6 +170,12 @@ func (v *Verifier) orderCheck(rootKeys []string) *FuncResult {
 			}
 			return true
 		})
+		// state that survives a generation: a package-level variable written by generation code makes the next
+		// generation in the same process depend on the previous one
+		for _, gw := range v.globalWrites(cu) {
+			res.Obls = append(res.Obls, v.synthObl(cu, "order:global:"+gw.name, gw.pos, false,
+				"package-level variable "+gw.name+" is written in code reachable from the generator: state carried from one generation to the next"))
+		}
 		con := v.contractOf(cu)
 		for _, ml := range v.mapRangeLoops(cu) {
 			cl, how := v.orderClause(con, ml.ord)
@@ -198,7 +204,7 @@ func (v *Verifier) orderCheck(rootKeys []string) *FuncResult {
 			}
 		}
 	}
-	res.Notes = append(res.Notes, fmt.Sprintf("%d functions reachable from %v scanned for map ranges, select, goroutines, time/rand/unsafe, %%p", nfun, rootKeys))
+	res.Notes = append(res.Notes, fmt.Sprintf("%d functions reachable from %v scanned for map ranges, select, goroutines, time/rand/unsafe, %%p, writes to package-level variables", nfun, rootKeys))
 	return res
 }
 
@@ -423,4 +429,70 @@ func (x *Exec) sameValue(a, b Val) string {
 		return fmt.Sprintf("(forall ((%s %s)) (and (= %s %s) (=> %s %s)))", k, ks, da, db, da, x.sameValue(va, vb))
 	}
 	return eq(a.S, b.S)
+}
+
+type globalWrite struct {
+	name string
+	pos  token.Pos
+}
+
+// globalWrites: assignments (also through index / field / pointer paths, ++/--, and address-taking) whose root is a
+// package-level variable
+func (v *Verifier) globalWrites(cu *FuncUnit) []globalWrite {
+	info := cu.Pkg.TypesInfo
+	var out []globalWrite
+	root := func(e ast.Expr) *types.Var {
+		for {
+			switch t := ast.Unparen(e).(type) {
+			case *ast.IndexExpr:
+				e = t.X
+			case *ast.SliceExpr:
+				e = t.X
+			case *ast.StarExpr:
+				e = t.X
+			case *ast.SelectorExpr:
+				if id, ok := t.X.(*ast.Ident); ok {
+					if _, isPkg := info.Uses[id].(*types.PkgName); isPkg {
+						gv, _ := info.Uses[t.Sel].(*types.Var)
+						if gv != nil && gv.Parent() == gv.Pkg().Scope() {
+							return gv
+						}
+						return nil
+					}
+				}
+				e = t.X
+			case *ast.Ident:
+				gv, _ := info.Uses[t].(*types.Var)
+				if gv != nil && gv.Pkg() != nil && gv.Parent() == gv.Pkg().Scope() {
+					return gv
+				}
+				return nil
+			default:
+				return nil
+			}
+		}
+	}
+	add := func(e ast.Expr) {
+		if gv := root(e); gv != nil {
+			out = append(out, globalWrite{gv.Pkg().Name() + "." + gv.Name(), e.Pos()})
+		}
+	}
+	ast.Inspect(cu.Decl.Body, func(n ast.Node) bool {
+		switch s := n.(type) {
+		case *ast.AssignStmt:
+			if s.Tok != token.DEFINE {
+				for _, l := range s.Lhs {
+					add(l)
+				}
+			}
+		case *ast.IncDecStmt:
+			add(s.X)
+		case *ast.UnaryExpr:
+			if s.Op == token.AND {
+				add(s.X)
+			}
+		}
+		return true
+	})
+	return out
 }
